@@ -141,6 +141,16 @@ def boundary_protos():
     return out
 
 
+def session_seeds():
+    """base prototypes for sessions: one register-passed block + a scalar after it"""
+    out = []
+    for b in ('blk1:16', 'blk1:8', 'blk2:16', 'blk2:8', 'blk3:16', 'blk4:12', 'blk:24', 'rblk:16'):
+        out.append(dict(args=[b, 'i64', 'd'], nfixed=3, vararg=False, res=['i64'], style='session'))
+        out.append(dict(args=['i32', b, 'f', 'u8'], nfixed=4, vararg=False, res=['u32', 'f'], style='session'))
+    out.append(dict(args=['p', 'i64', 'd'], nfixed=1, vararg=True, res=['i32'], style='session'))
+    return out
+
+
 def gen_values(rng, proto):
     """random bit patterns: per argument the bytes MIR holds (8 for ints/p/d, 4 for f, 10 for ld, size for blocks)"""
     vals = []
@@ -212,21 +222,28 @@ def proto_text(proto, name='pr'):
     return '%s: proto %s' % (name, ', '.join(parts))
 
 
-def c05_mir(proto):
-    """module whose `caller` loads the argument values from `vals`, calls `probe` through the
-    prototype and stores every result (full register width) into `outs`"""
+VBASE = 2048   # vals region of the k-th call of a session
+OBASE = 256    # outs region of the k-th call of a session
+
+
+def c05_items(proto, k=0):
+    """proto item + caller function of the k-th call of a session"""
     offs, _ = layout(proto)
-    L = ['m: module', proto_text(proto), 'import probe, vals, outs', 'export caller', 'caller: func']
+    sfx = '' if k == 0 else str(k)
+    pr = 'pr' + sfx
+    L = [proto_text(proto, pr), 'export caller' + sfx, 'caller%s: func' % sfx]
     loc = ['i64:v', 'i64:o']
     body = ['mov v, vals', 'mov o, outs']
+    if k:
+        body += ['add v, v, %d' % (VBASE * k), 'add o, o, %d' % (OBASE * k)]
     ops = []
     for i, (t, o) in enumerate(zip(proto['args'], offs)):
         rt = reg_type(t)
         loc.append('%s:a%d' % (rt, i))
         if is_blk(t):
             body.append('add a%d, v, %d' % (i, o))
-            k, s = t.split(':')
-            ops.append('%s:%s(a%d)' % (k, s, i))
+            kk, s = t.split(':')
+            ops.append('%s:%s(a%d)' % (kk, s, i))
         else:
             mv = {'f': 'fmov', 'd': 'dmov', 'ld': 'ldmov'}.get(t, 'mov')
             mt = t if t in ('f', 'd', 'ld') else 'i64'
@@ -238,13 +255,107 @@ def c05_mir(proto):
         rops.append('r%d' % i)
     L.append('local ' + ', '.join(loc))
     L += body
-    L.append('call ' + ', '.join(['pr', 'probe'] + rops + ops))
+    L.append('call ' + ', '.join([pr, 'probe'] + rops + ops))
     for i, t in enumerate(proto['res']):
         mv = {'f': 'fmov', 'd': 'dmov', 'ld': 'ldmov'}.get(t, 'mov')
         mt = t if t in ('f', 'd', 'ld') else 'i64'
         L.append('%s %s:%d(o), r%d' % (mv, mt, 16 * i, i))
-    L += ['ret', 'endfunc', 'endmodule']
+    L += ['ret', 'endfunc']
+    return L
+
+
+def c05_mir(protos):
+    """module whose `caller<k>` loads the argument values of call k from `vals`, calls `probe` through
+    prototype k and stores every result (full register width) into `outs`; protos: one prototype or a list"""
+    if isinstance(protos, dict):
+        protos = [protos]
+    L = ['m: module', 'import probe, vals, outs']
+    for k, p in enumerate(protos):
+        L += c05_items(p, k)
+    L.append('endmodule')
     return '\n'.join(L) + '\n'
+
+
+def session_vals(protos, valss):
+    buf = bytearray(VBASE * len(protos))
+    for k, (p, v) in enumerate(zip(protos, valss)):
+        b = vals_bytes(p, v)
+        buf[VBASE * k:VBASE * k + len(b)] = b
+    return bytes(buf)
+
+
+def related_proto(rng, p):
+    """a prototype that differs from p in one aspect (aimed at per-signature caches)"""
+    q = dict(p, args=list(p['args']), res=list(p['res']))
+    kinds = []
+    if any(a.startswith('blk') for a in q['args']):
+        kinds += ['blksize'] * 3
+    if q['args']:
+        kinds += ['argtype', 'swap', 'drop']
+    if q['res']:
+        kinds += ['restype']
+    if q['vararg'] and q['args']:
+        kinds += ['nfixed']
+    if not kinds:
+        return dict(q, args=['i64'], nfixed=1)
+    k = rng.choice(kinds)
+    if k == 'blksize':
+        idx = rng.choice([i for i, a in enumerate(q['args']) if a.startswith('blk')])
+        c, s = q['args'][idx].split(':')
+        s = int(s)
+        if c == 'blk':
+            ns = rng.choice([x for x in (1, 8, 9, 16, 17, 24, 40) if x != s])
+        elif c in ('blk1', 'blk2'):
+            ns = rng.choice([x for x in (1, 7, 8, 9, 12, 16) if (x <= 8) != (s <= 8)] or [8])
+        else:
+            ns = rng.choice([x for x in (9, 12, 13, 16) if x != s])
+        q['args'][idx] = '%s:%d' % (c, ns)
+    elif k == 'argtype':
+        idx = rng.randrange(len(q['args']))
+        a = q['args'][idx]
+        tail = idx >= q['nfixed']
+        if a in ITYS:
+            q['args'][idx] = rng.choice(['i64', 'd'] if tail else [t for t in ITYS if t != a] + ['d', 'f'])
+        elif a in ('f', 'd'):
+            q['args'][idx] = 'i64' if tail else ('d' if a == 'f' else rng.choice(['f', 'i32']))
+        elif a == 'ld':
+            q['args'][idx] = 'd'
+        elif a.startswith('blk'):
+            c, s = a.split(':')
+            s = int(s)
+            nc = rng.choice([x for x in ('blk', 'blk1', 'blk2', 'blk3', 'blk4') if x != c])
+            if nc in ('blk3', 'blk4'):
+                s = min(max(s, 9), 16)
+            elif nc in ('blk1', 'blk2'):
+                s = min(s, 16)
+            q['args'][idx] = '%s:%d' % (nc, s)
+    elif k == 'swap' and len(q['args']) >= 2:
+        i = rng.randrange(len(q['args']) - 1)
+        if (i < q['nfixed']) == (i + 1 < q['nfixed']):
+            q['args'][i], q['args'][i + 1] = q['args'][i + 1], q['args'][i]
+    elif k == 'drop':
+        idx = rng.randrange(len(q['args']))
+        del q['args'][idx]
+        if idx < q['nfixed']:
+            q['nfixed'] -= 1
+    elif k == 'restype':
+        idx = rng.randrange(len(q['res']))
+        r = q['res'][idx]
+        if r in ITYS:
+            q['res'][idx] = rng.choice([t for t in ITYS if t != r])
+        elif r in ('f', 'd'):
+            q['res'][idx] = 'd' if r == 'f' else 'f'
+    elif k == 'nfixed':
+        q['nfixed'] = rng.randint(0, len(q['args']))
+        for i in range(q['nfixed'], len(q['args'])):
+            a = q['args'][i]
+            if a in ITYS:
+                q['args'][i] = 'i64'
+            elif a == 'f':
+                q['args'][i] = 'd'
+            elif a.startswith('rblk'):
+                q['args'][i] = 'i64'
+    return q
 
 
 # ---------------------------------------------------------------- model line
